@@ -306,6 +306,11 @@ def body(led):
             check_tangent(led, model, kind)
     from . import py_panel
     py_panel.check_calc_kT_fint(led)
+    # assemblies (the property names them): tangent and internal force are the sums of the panels' own terms at their ranges plus the
+    # connection matrix / connection matrix times the state (same obligations as in C13)
+    from . import py_assembly as A
+    A.check_matrix(led, 'calc_kT', ['fkL_num', 'fkG_num'], with_conn=True, state=True)
+    A.check_matrix(led, 'calc_fint', ['calc_fint'], with_conn=True, state=True)
 
 
 def main():
